@@ -353,11 +353,13 @@ async fn checkpoint(ctx: &mut Ctx, c: &Cluster, tag: &str) {
 }
 
 /// propose through whoever is leader; `Some((index, term))` when acknowledged
-async fn write(ctx: &mut Ctx, c: &Cluster, cmd: ClusterCommand, reachable: &[u64]) -> Option<(u64, u64)> {
+async fn write(ctx: &mut Ctx, c: &Cluster, cmd: ClusterCommand, reachable: &[u64]) -> Option<(u64, u64)> { write_t(ctx, c, cmd, reachable, 8).await }
+
+async fn write_t(ctx: &mut Ctx, c: &Cluster, cmd: ClusterCommand, reachable: &[u64], secs: u64) -> Option<(u64, u64)> {
     let mut target = c.leader().map(|x| x.0).filter(|id| reachable.contains(id)).or_else(|| reachable.first().copied())?;
     for _ in 0..4 {
         let n = c.node(target)?;
-        match tokio::time::timeout(Duration::from_secs(8), n.raft.client_write(cmd.clone())).await {
+        match tokio::time::timeout(Duration::from_secs(secs), n.raft.client_write(cmd.clone())).await {
             Ok(Ok(resp)) => { ctx.count("write.acked"); return Some((resp.log_id.index, resp.log_id.leader_id.term)); }
             Ok(Err(e)) => {
                 ctx.count("write.refused");
@@ -423,7 +425,7 @@ async fn part_b(ctx: &mut Ctx) {
                             if let Some((idx, term)) = write(ctx, &c, cmd, &rest).await { ctx.directive(&format!("ack {} {} {}", idx, term, enc)); }
                         }
                         // a write offered to the isolated node must not be acknowledged; whatever it answers, nothing may be lost
-                        if ctx.rng.chance(1, 2) { uniq += 1; let (cmd, enc) = gen_cmd(ctx, uniq); if let Some((idx, term)) = write(ctx, &c, cmd, &[victim]).await { ctx.directive(&format!("ack {} {} {}", idx, term, enc)); ctx.count("write.acked_by_isolated_node"); } }
+                        if ctx.rng.chance(1, 3) { uniq += 1; let (cmd, enc) = gen_cmd(ctx, uniq); if let Some((idx, term)) = write_t(ctx, &c, cmd, &[victim], 3).await { ctx.directive(&format!("ack {} {} {}", idx, term, enc)); ctx.count("write.acked_by_isolated_node"); } }
                     }
                     checkpoint(ctx, &c, "during_partition").await;
                     verif_fault::clear();
